@@ -238,7 +238,9 @@ pub fn build_table_from_data(
             max_symbol = idx;
         }
     }
-    build_table_from_counts(&counts[..=max_symbol], max_log, avoid_0_numbit)
+    // Always describe at least two symbols so that a distribution with a single
+    // used symbol still has a second slot to receive the redistributed probability.
+    build_table_from_counts(&counts[..=max_symbol.max(1)], max_log, avoid_0_numbit)
 }
 
 fn build_table_from_counts(counts: &[usize], max_log: u8, avoid_0_numbit: bool) -> FSETable {
